@@ -2677,3 +2677,86 @@ mutant('C04-census-in-set-order', 'C04',
          "    for pth in set(precompute_path_list):\n"
          "        this_tree = TaxonomyTree.from_precomputed_stats(\n")],
        'R-TAINT/order-to-sink', '')
+
+
+# ----------------------------------------------------------------------
+# C03
+# ----------------------------------------------------------------------
+_EL = P + 'type_assignment/election.py'
+mutant('C03-share-over-subset-size', 'C03',
+       'vote share divided by something other than the iteration count',
+       [(_EL, "    vote_fractions = votes / bootstrap_iteration\n",
+         "    vote_fractions = votes / votes.sum(axis=1, keepdims=True)\n")],
+       'R-ARITH/quotients', 'vote-share')
+mutant('C03-corr-over-iterations', 'C03',
+       'mean correlation divided by the iteration count',
+       [(_EL, "    avg_corr = corr_sum[idx_array_2d, sorted_by_votes] / "
+         "denom\n",
+         "    avg_corr = corr_sum[idx_array_2d, sorted_by_votes] / "
+         "bootstrap_iteration\n")],
+       'R-ARITH/quotients', 'mean-correlation')
+mutant('C03-denominator-unguarded', 'C03',
+       'mean correlation divided by the raw vote counts',
+       [(_EL, "    denom = np.where(votes > 0, votes, 1)\n",
+         "    denom = np.maximum(votes, 1)\n")],
+       'R-ARITH/quotients', 'mean-correlation')
+mutant('C03-runners-from-column-zero', 'C03',
+       'runner-up columns start at the winner',
+       [(_EL, "         for i_col in range(1, n_assignments, 1)]\n",
+         "         for i_col in range(0, n_assignments, 1)]\n")],
+       'R-ARITH/truncation', 'runner-up-columns')
+mutant('C03-no-truncation-to-candidates', 'C03',
+       'number of assignments not limited by the number of candidates',
+       [(_EL, "    n_assignments = min(n_assignments, votes.shape[1])\n",
+         "    n_assignments = min(n_assignments, votes.shape[0])\n")],
+       'R-ARITH/truncation', 'requested-number')
+mutant('C03-no-aggregation', 'C03',
+       'leaf votes of one child are not merged before ranking',
+       [(_EL, "    if len(set(reference_types)) < len(reference_types):\n",
+         "    if len(set(reference_types)) < 0:\n")],
+       'R-ARITH/distinct-candidates', '')
+mutant('C03-tuple-flag-from-share', 'C03',
+       'runner-up flag taken from another column',
+       [(_EL, "          votes[i_row, i_col] > 0,\n",
+         "          votes[i_row, 0] > 0,\n")],
+       'R-ARITH/runner-up-tuple', '')
+mutant('C03-single-child-half', 'C03',
+       'single-child parents get probability 0.5',
+       [(_EL, "                bootstrapping_probability = "
+         "[1.0]*chosen_query_data.n_cells\n",
+         "                bootstrapping_probability = "
+         "[0.5]*chosen_query_data.n_cells\n")],
+       'R-CONST/single-child', 'probability')
+mutant('C03-product-not-reset', 'C03',
+       'running product carried over from the previous cell',
+       [(_EL, "    for cell in result:\n        prob = 1.0\n"
+         "        for level in taxonomy_tree.hierarchy:\n",
+         "    prob = 1.0\n    for cell in result:\n"
+         "        for level in taxonomy_tree.hierarchy:\n")],
+       'R-ARITH/running-product', 'reset')
+mutant('C03-product-stored-before-multiply', 'C03',
+       'aggregate probability stored before the level is multiplied in',
+       [(_EL, "            prob *= cell[level]['bootstrapping_probability']\n"
+         "            cell[level]['aggregate_probability'] = prob\n",
+         "            cell[level]['aggregate_probability'] = prob\n"
+         "            prob *= cell[level]['bootstrapping_probability']\n")],
+       'R-ARITH/running-product', 'multiply')
+mutant('C03-product-bottom-up', 'C03',
+       'running product taken from the leaf level upwards',
+       [(_EL, "        for level in taxonomy_tree.hierarchy:\n"
+         "            prob *= cell[level]['bootstrapping_probability']\n",
+         "        for level in taxonomy_tree.hierarchy[::-1]:\n"
+         "            prob *= cell[level]['bootstrapping_probability']\n")],
+       'R-ARITH/running-product', 'level-order')
+twin('C03-twin-product-local-record', 'C03',
+     'running product written through a local alias of the hierarchy',
+     [(_EL, "        for level in taxonomy_tree.hierarchy:\n"
+       "            prob *= cell[level]['bootstrapping_probability']\n",
+       "        levels = taxonomy_tree.hierarchy\n"
+       "        for level in levels:\n"
+       "            prob *= cell[level]['bootstrapping_probability']\n")])
+twin('C03-twin-share-temp', 'C03',
+     'vote share computed through a temporary',
+     [(_EL, "    vote_fractions = votes / bootstrap_iteration\n",
+       "    n_iter = bootstrap_iteration\n"
+       "    vote_fractions = votes / n_iter\n")])
